@@ -106,6 +106,10 @@ def gen_params(rng, kind=None):
             p["cohesion"][b] = {b: c, o: 1 - c}
         p["shuffle_keys"] = rng.random() < 0.6
         p["shuffle_rows"] = rng.random() < 0.5
+        # slate_to_candidates listed in another order than bloc_voter_prop (both name the same blocs): the order in which
+        # a generator walks the slates may change its draws, so these cases go through the monitors only (bloc sizes,
+        # totals, well-formedness), not through the call-by-call replay
+        p["shuffle_slates"] = len(blocs) > 1 and rng.random() < 0.15
         if kind == "short_pl":
             p["L"] = rng.randint(1, len(names))
         if kind == "cumulative":
@@ -133,6 +137,8 @@ def gen_params(rng, kind=None):
         if kind in ("spatial", "clustered"):
             p["dim"] = rng.choice([1, 2, 3])
             p["grid"] = rng.random() < 0.3      # positions on a coarse grid: equal distances happen
+            # a distance that is not symmetric in its arguments (documented order: voter first, candidate second)
+            p["asym"] = kind == "spatial" and rng.random() < 0.4
         if kind == "clustered":
             p["per_cand"] = [rng.choice([0, 1, 1, 2, 3, 5]) for _ in range(n)]
             if sum(p["per_cand"]) == 0:
@@ -188,7 +194,10 @@ def build(vk, p, tmpdir=None):
         pib = {b: {s: PreferenceInterval(interval_dict(b, s)) for s in order(f"pi/{b}")} for b in order("pi")}
         # bloc_voter_prop and slate_to_candidates are built in the order of p["blocs"] (the order in which the generators
         # go through blocs and slates), so a case replays identically after a JSON round trip
-        kw = dict(slate_to_candidates={b: list(p["slates"][b]) for b in p["blocs"]}, pref_intervals_by_bloc=pib,
+        slate_order = list(p["blocs"])
+        if p.get("shuffle_slates"):
+            slate_order = slate_order[1:] + slate_order[:1]
+        kw = dict(slate_to_candidates={b: list(p["slates"][b]) for b in slate_order}, pref_intervals_by_bloc=pib,
                   bloc_voter_prop={b: p["props"][b] for b in p["blocs"]},
                   cohesion_parameters={b: {s: p["cohesion"][b][s] for s in order(f"co/{b}")} for b in order("co")})
         if kind == "pl":
@@ -233,8 +242,14 @@ def build(vk, p, tmpdir=None):
                 return np.random.uniform(0.0, 1.0, size)
         if kind == "spatial":
             vdist = cdist
+            extra = {}
+            if p.get("asym"):
+                def directional(v, c):
+                    d = np.asarray(c, dtype=float) - np.asarray(v, dtype=float)
+                    return float(np.sum(np.where(d > 0, d, -3.0 * d)))       # moving "down" costs three times as much
+                extra["distance"] = directional
             return BG.Spatial(candidates=cands, voter_dist=vdist, voter_dist_kwargs={"size": dim},
-                              candidate_dist=cdist, candidate_dist_kwargs={"size": dim})
+                              candidate_dist=cdist, candidate_dist_kwargs={"size": dim}, **extra)
         if p.get("grid"):
             def normal(loc=0.0, scale=1.0, size=dim):
                 return np.round(np.random.normal(loc, scale, size))
